@@ -20,8 +20,7 @@ Section Sim.
   Notation piR := (piR d).
   Notation piR0 := (piR0 d).
 
-  (* link targets *)
-  Definition lnk_rel (lw ll : str) : Prop := (exists r, ll = SLASH :: r) /\ okstr ll /\ lw = W ll.
+  Notation lnk_rel := (lnk_rel d).
 
   Inductive nrel : node -> node -> Prop :=
   | NRDir ch mw ml : nrel (NDir ch mw) (NDir ch ml)
@@ -147,10 +146,9 @@ Section Sim.
       + (* symbolic link *)
         destruct (Nat.ltb slCountMax (S slc)); [apply Hret; discriminate|].
         destruct (pi_is_last pl1 && slmode_eqb slm SlLstat); [apply Hret; discriminate|].
-        destruct Hlnk as ((r & ->) & Hokl & ->).
-        destruct (@pi_replace_R d Hd pw1 pl1 r HR1 Hokl) as (Hreset & HR2).
-        destruct (pi_replace_part Windows pw1 (W (SLASH :: r))) as [rsw pw2].
-        destruct (pi_replace_part Linux pl1 (SLASH :: r)) as [rsl pl2].
+        destruct (@pi_replace_R d Hd pw1 pl1 lw ll HR1 Hlnk) as (Hreset & HR2).
+        destruct (pi_replace_part Windows pw1 lw) as [rsw pw2].
+        destruct (pi_replace_part Linux pl1 ll) as [rsl pl2].
         cbn [fst snd] in Hreset, HR2. subst rsw.
         apply IH; [apply piR_piR0; exact HR2|intros _; exact HR2| |].
         * destruct Hs as [a b Hab|]; [constructor; exact Hab|].
@@ -186,7 +184,7 @@ Section Sim.
     apply search_loop_sim.
     - exact (fr_heap F).
     - exact V.
-    - apply pi_new_R0; [exact Hd|exact Hoka].
+    - apply pi_new_R0; [exact Hd|exact Hoka|eauto].
     - intros E. exfalso. exact (SEARCH_FUEL_pos E).
     - constructor.
     - reflexivity.
